@@ -20,6 +20,9 @@ def tasks(ctx):
           Task("(*audio.square).trigger", "(*audio.square).trigger", keep=KEEP), Task("(*audio.wave).trigger", "(*audio.wave).trigger", keep=KEEP),
           Task("(*audio.noise).trigger", "(*audio.noise).trigger", keep=KEEP),
           Task(ac.A + "tickTimer", ac.A + "tickTimer", overrides=ac.OV, keep=keep_labels({"ch1", "ch2", "ch3", "ch4", "ok"})),
+          # ... and "the one written": NRx3 sets the low 8 bits, NRx4 the high 3 bits, each keeping the other part; NR43 the noise clock
+          *[Task(ac.A + r, ac.A + r, overrides=ac.OV, keep=keep_labels({"freq", "freqhi", "clock", "off"}, kinds=("requires",)))
+            for r in ("WriteNR13", "WriteNR23", "WriteNR33", "WriteNR43", "WriteNR14", "WriteNR24", "WriteNR34")],
           # the frequency a channel runs at is the one written to NRx3/NRx4 unless the sweep unit replaces it as documented
           Task("(*audio.square).tickSweep", "(*audio.square).tickSweep", keep=keep_labels({"freq", "shadow", "timer", "idle"})),
           LemmaTask("lemma:lfsr-and-period", ac.lfsr_spec_orbit, ["spec lfsr15/lfsr7 (oracle orbit)", "tickTimer (contract-level period lemma)"])]
